@@ -232,12 +232,21 @@ def do_call(kind, lens, case, args_log):
     if kind == 'spot':
         from optiland.analysis import SpotDiagram
         s = SpotDiagram(lens, fields='all', wavelengths='all', num_rings=nr)
-        return [s.data, s.rms_spot_radius(), s.geometric_spot_radius(), s.centroid()]
+        import copy as _copy
+        first = [_copy.deepcopy(s.data), s.centroid(), s.rms_spot_radius(), s.geometric_spot_radius()]
+        # the same object queried again: a query must not change what the object holds or what it answers next
+        again = [s.data, s.centroid(), s.rms_spot_radius(), s.geometric_spot_radius()]
+        args_log.same_object = same(first, again)
+        return [first[0], first[2], first[3], first[1]]
     if kind == 'encircled':
         from optiland.analysis import EncircledEnergy
         from optiland.distribution import RandomDistribution
         e = EncircledEnergy(lens, fields='all', wavelength='primary', num_rays=nr + 3, distribution='hexapolar', num_points=16)
-        return [e.data, e.centroid()]
+        import copy as _copy
+        first = [_copy.deepcopy(e.data), e.centroid()]
+        again = [e.data, e.centroid()]
+        args_log.same_object = same(first, again)
+        return first
     if kind == 'ray-fan':
         from optiland.analysis import RayFan
         return RayFan(lens, fields='all', wavelengths='all', num_points=9).data
@@ -315,6 +324,9 @@ def check_case(case, rec):
             raise
         rec.event('calls')
         rec.cls(f'call-{kind}')
+        if getattr(log, 'same_object', None) is not None:
+            rec.check('repeatable', bool(log.same_object), key='repeatable:same-analysis-object-queried-twice',
+                      msg=f'{kind}: querying one analysis object a second time returned different results / changed its stored data')
         kinds_done.add(kind)
         # the lens itself: nothing but the documented per-trace records may change
         now = deep_snapshot(lens)
